@@ -490,6 +490,28 @@ def live_extra(ctx, B):
                 for m in live_feed(B, inv):
                     for clause, detail in check_out(m):
                         _fail(ctx, B, inv, [], clause, detail, seen, ('vreply', how + json.dumps(kw, sort_keys=True)))
+    # `more <nick>`: another user takes over somebody's pending long reply (Misc.more hands out copies, IrcMsg(msg=m))
+    relayed = 0
+    longs = [('wo\u00e9rd ' * 400).strip(), ('\u65e5\u672c\u8a9e ' * 300).strip(), 'A' * 1500, ('\x02b\x0f \x0304,05c\x03 ' * 120).strip(),
+             '"' + 'z\\n' * 400 + '"', ('\U0001f600 ' * 400).strip(), '\x01ACTION ' + 'x y ' * 300 + '\x01']
+    for a in (longs if ctx.scale == 1 else longs + rng.sample(HOSTILE, 20)):
+        for cfg in ({}, {'notice': True, 'prefixNick': False}, {'moresInstant': 3}):
+            heal(B)
+            hist = [{'caller': 'bob', 'where': 'chan', 'text': 'utilities echo ' + a, 'conf': cfg}]
+            outs = live_feed(B, hist[0])
+            for who, text in (('alice', 'more bob'), ('alice', 'more'), ('bob', 'more'), ('longnick', 'more bob'), ('longnick', 'more')):
+                inv = {'caller': who, 'where': rng.choice(['chan', 'priv']), 'text': text, 'conf': cfg}
+                ctx.case('live-more-nick', dict(inv, after=a[:40]))
+                outs = live_feed(B, inv)
+                relayed += sum(1 for m in outs if not isinstance(m, Exception) and 'Error' not in str(m))
+                for m in outs:
+                    for clause, detail in check_out(m):
+                        k = ('more', clause)
+                        seen[k] = seen.get(k, 0) + 1
+                        if seen[k] <= 2:
+                            ctx.fail({'op': 'live', 'clause': clause, 'inv': inv, 'history': list(hist)}, '%s: %s' % (clause, detail))
+                hist.append(inv)
+    ctx.notes.append('more <nick>: %d continuation lines relayed to other users' % relayed)
     # plugin outFilters rebuild the outgoing message through the unchecked msg= branch
     for setup in FILTER_SETUPS:
         hist = [{'caller': 'alice', 'where': 'chan', 'text': t, 'conf': {}} for t in setup]
